@@ -90,6 +90,10 @@ def variants(prods):
                     desc = (f"split={sorted(split.items())} alias={int(alias)} "
                             f"terms={tstyle} order={order} other={int(other_path)}")
                     out.append((desc, files, None))
+                    if nfiles >= 2 and not other_path:
+                        files = render(by, where, nfiles, refs, alias, tstyle,
+                                       order, other_path, dotted=True)
+                        out.append((desc + " paths=dotted", files, None))
         # override variant: the root replaces A (when A is imported)
         if where["A"] != 0:
             new_rhs = [("a", "a")]
@@ -98,6 +102,10 @@ def variants(prods):
             ov = [(l, r) for l, r in prods if l != "A"] + \
                 [("A", r) for r in new_rhs]
             out.append((f"split={sorted(split.items())} override A", files, ov))
+            files = render(by, where, nfiles, refs, False, "inline", None, False,
+                           override=("A", new_rhs), dotted=True)
+            out.append((f"split={sorted(split.items())} override A "
+                        "paths=dotted", files, ov))
             # ... and a user on another file refers to it with a repetition
             if where["B"] != where["A"] and any(
                     "A" in r for l, r in prods if l == "B"):
@@ -112,8 +120,28 @@ def fname(i):
     return ["root", "f1", "f2"][i]
 
 
+def floc(i, dotted):
+    """where a file lives: with dotted paths f1.pg sits in sub/"""
+    if i == "t":
+        return "t.pg"
+    return ("sub/" if dotted and i == 1 else "") + fname(i) + ".pg"
+
+
+def ipath(src, dst, dotted):
+    """spelling of the import path from file src to file dst.  With dotted
+    paths the same file is reached under different spellings ('./f2.pg',
+    '../f2.pg', 'sub/../f2.pg'), which must not make it a different file."""
+    if not dotted:
+        return floc(dst, False)
+    if src == 1:                       # from sub/f1.pg
+        return "../" + floc(dst, True) if dst != 1 else "f1.pg"
+    if dst == 1:
+        return "./sub/f1.pg" if src == 2 else "sub/f1.pg"
+    return ("./" if src == 0 else "sub/../") + floc(dst, True)
+
+
 def render(by, where, nfiles, refs, alias, tstyle, order, other_path,
-           override=None, plus=False):
+           override=None, plus=False, dotted=False):
     files = {}
     al = (lambda i: f"m{i}") if alias else fname
     for f in range(nfiles):
@@ -123,9 +151,9 @@ def render(by, where, nfiles, refs, alias, tstyle, order, other_path,
         lines = []
         tl = []
         if tstyle == "shared":
-            tl = ["import 't.pg';"]
-        il = [f"import '{fname(t)}.pg'" + (f" as {al(t)}" if alias else "") + ";"
-              for t in imps]
+            tl = [f"import '{ipath(f, 't', dotted)}';"]
+        il = [f"import '{ipath(f, t, dotted)}'" +
+              (f" as {al(t)}" if alias else "") + ";" for t in imps]
         lines += (tl + il) if order != "reversed" else (il + tl)
         for rule in [n for n in NTS if where[n] == f and n in by]:
             alts = []
@@ -161,7 +189,7 @@ def render(by, where, nfiles, refs, alias, tstyle, order, other_path,
             fq = ".".join(al(t) for t in path) + f".{rule}"
             lines.append(f"{fq}: " + " | ".join(
                 " ".join(f'"{x}"' for x in r) for r in rhss) + ";")
-        files[fname(f) + ".pg"] = "\n".join(lines) + "\n"
+        files[floc(f, dotted)] = "\n".join(lines) + "\n"
     if tstyle == "shared":
         files["t.pg"] = 'T: a | b;\nterminals\na: "a";\nb: "b";\n'
     return files
@@ -237,6 +265,8 @@ def run_unit(u):
             d = tempfile.mkdtemp(prefix="pgmc-c20-")
             try:
                 for nme, text in files.items():
+                    os.makedirs(os.path.dirname(os.path.join(d, nme)),
+                                exist_ok=True)
                     open(os.path.join(d, nme), "w").write(text)
                 plus = isinstance(ov, tuple) and ov and ov[0] == "plus"
                 if plus:
@@ -272,7 +302,7 @@ def run_unit(u):
                     except Exception as e:     # noqa: BLE001
                         p = type(e).__name__
                     for f_ in os.listdir(d):
-                        if f_.endswith(".pgc"):
+                        if f_.endswith((".pgc", ".tmp")):
                             os.remove(os.path.join(d, f_))
                     if isinstance(p, str) or isinstance(fp, str):
                         if (p if isinstance(p, str) else "ok") != \
